@@ -235,6 +235,22 @@ fn gen_natural(rng: &mut Rng, idx: usize) -> String {
         // (pretty-printing indents every level: output grows with the square of the depth)
         "dz = []\nfor _i in range(1500):\n    dz = [dz]\npprint(dz)",
         "dz = []\nfor _i in range(30000):\n    dz = [dz]\nemit(type(dz), len(dz), bool(dz), dz[0] != None, list(dz) != None, dz + dz != None)",
+        // Operations fed with their own receiver, directly or inside the argument.
+        "dq = {1: 2}\ndq.update([dq])",
+        "dq = {1: 2}\ndq.update([[dq, 1]])",
+        "dq = {\"a\": 1}\ndq.update(dq)\ndq |= dq\nemit(dq)\ndq.update([dq.items()])",
+        "lq = [1, 2]\nlq.extend(lq)\nlq += lq\nemit(lq)\nlq.extend([lq])\nemit(len(lq))\nlq.extend(lq[0] if type(lq[0]) == \"list\" else [lq])\nemit(\",\".join(lq))",
+        "sq = set([1, 2])\nsq.update(sq)\nsq |= sq\nemit(sq)\nsq.update([sq])",
+        "lq = [3, 1, 2]\nemit(sorted(lq, key = lambda v: lq.append(v)))",
+        "dq = {1: 2, 3: 4}\nemit([dq.pop(k) for k in dq])",
+        "dq = {1: 2}\nemit(dict([(k, dq.clear()) for k in dq]))",
+        // Sorting values that cannot all be compared with each other (more than 20 elements).
+        "emit(sorted([45, 6, 75, 24, 73, 78, 59, 92, 93, 10, 67, 44, 97, 82, 71, \"s\", 85, 46, 27, 80, 41]))",
+        "emit(sorted([45, 6, 75, 24, 73, 78, 59, 92, None, 10, 67, 44, 97, 82, 71, \"s\", 85, 46, 27, 80, 41, [1], (2,)], reverse = True))",
+        "emit(sorted(list(range(30)) + [\"x\"] + list(range(30)), key = lambda v: v))",
+        "emit(sorted([(i % 7, \"a\" if i % 5 else 3) for i in range(40)]))",
+        "emit(max(list(range(25)) + [\"s\"]), min([None] + list(range(25))))",
+        "emit(sorted([float(\"nan\")] + [float(i) for i in range(30)] + [float(\"nan\"), 3]))",
         "emit(tqe_last())",
         "emit([tqe_last() for _ in range(2)])",
     ];
